@@ -25,7 +25,7 @@ def run(chk):
                             'test is run, the change is undone, the test is run again; the verdict of every generated test is bound to '
                             'the model and Teeth / ScriptPasses are evaluated')
     chk.coverage['exhaustive'] = False
-    chk.assume('perturbations touch the first line, which never carries host / user / cwd tokens or a date close to the day of the run (dates decades away are ordinary content), and are not mere swaps of line terminators')
+    chk.assume('perturbations touch the first line, which never carries host / user / cwd tokens or a date close to the day of the run (dates decades away are ordinary content)')
 
 
 def replay(path):
